@@ -89,7 +89,16 @@ def generate(seed, tier):
             "n_real": rng.randint(1, 3), "max_iter": rng.randint(1, 30 if tier == "quick" else 80),
             "normalizeU": rng.random() < 0.4, "baseline_r0": rng.random() < 0.5,
             "min_value_par": rng.choice([0.0, 0.0, 1e-5]),
-            "init": rng.choice([None, None, None, "u0", "w0", "both"]), "init_seed": rng.randint(0, 10**6)}
+            "init": rng.choice([None, None, None, "u0", "w0", "both"]), "init_seed": rng.randint(0, 10**6),
+            "decoy": _decoy(rng) if rng.random() < 0.25 else None}
+
+
+def _decoy(rng):
+    """Another hypergraph the object is fitted to first: usually smaller (higher likelihood), other isolated nodes."""
+    spec = _gen.rand_hypergraph_spec(rng, nmin=3, nmax=6, emin=2, emax=5, smin=2, smax=3, labels="int")
+    spec["nodes"] = spec["nodes"] + [200 + i for i in range(rng.choice([0, 1, 3]))]
+    used = {n for e in spec["edges"] for n in e}
+    return {"spec": spec, "K": max(2, min(rng.randint(2, 3), len(used))), "seed": rng.randint(0, 10**5)}
 
 
 # --------------------------------------------------------------------- the seams
@@ -165,7 +174,7 @@ def _start_arrays(case, h):
     return _START[key]
 
 
-def _fit_mt(case, run_idx, clock_mode, perturb, reuse=None):
+def _fit_mt(case, run_idx, clock_mode, perturb, reuse=None, decoy=None):
     from hypergraphx.communities.hypergraph_mt.model import HypergraphMT
 
     h = _gen.build_hypergraph(case["spec"], weights=case["weights"], weighted=case["weighted"])
@@ -185,6 +194,10 @@ def _fit_mt(case, run_idx, clock_mode, perturb, reuse=None):
             m = reuse if reuse is not None else HypergraphMT(
                 n_realizations=case["n_real"], max_iter=case["max_iter"], min_value_par=case["min_value_par"],
                 verbose=False, check_convergence_every=1)
+            if decoy is not None:
+                # the object has a past: it was fitted to another hypergraph (other size, other isolated nodes) before
+                hd = _gen.build_hypergraph(decoy["spec"])
+                m.fit(hd, K=decoy["K"], seed=decoy["seed"], normalizeU=case["normalizeU"], baseline_r0=case["baseline_r0"])
             u, w, L = m.fit(h, K=case["K"], seed=case["sut_seed"], normalizeU=case["normalizeU"], baseline_r0=case["baseline_r0"], **extra)
     finally:
         _uninstall(saved)
@@ -281,15 +294,19 @@ def execute(case):
         # same seed again: other clock, perturbed globals
         try:
             t1_saved = m.train_info.drop(columns=["runtime"]).values.tolist()
-            h2, m2, u2, w2, L2, clock2, info2 = _fit_mt(case, 1, "wild", True, reuse=m if case.get("reuse_object") else None)
+            h2, m2, u2, w2, L2, clock2, info2 = _fit_mt(case, 1, "wild", True, reuse=m if case.get("reuse_object") else None,
+                                                        decoy=case.get("decoy"))
             if case.get("reuse_object"):
                 stats["same_object_fitted_twice"] = stats.get("same_object_fitted_twice", 0) + 1
+            if case.get("decoy"):
+                stats["fitted_after_another_hypergraph"] = stats.get("fitted_after_another_hypergraph", 0) + 1
         except Exception as e:  # noqa
             raise Violation(f"C17/mt/raised-on-second-run[{type(e).__name__}]", {"exception": repr(e), **ctx})
         t1 = t1_saved
         t2 = m2.train_info.drop(columns=["runtime"]).values.tolist()
-        if not (np.array_equal(u, u2) and np.array_equal(w, w2) and L == L2) or t1 != t2:
-            raise Violation("C17/mt/same-seed-different-result", {
+        if not (u.shape == u2.shape and w.shape == w2.shape and np.array_equal(u, u2) and np.array_equal(w, w2) and L == L2) or t1 != t2:
+            raise Violation("C17/mt/same-seed-different-result" + ("[object-fitted-before]" if case.get("decoy") else ""), {
+                "shapes": [list(u.shape), list(u2.shape)], "decoy": case.get("decoy"),
                 "maxL": [L, L2], "max_abs_du": float(np.max(np.abs(u - u2))) if u.shape == u2.shape else None,
                 "train_info_equal": t1 == t2, "clock_events": clock2.events, **ctx})
         stats["mt_fits"] += 1
@@ -307,6 +324,8 @@ def execute(case):
                     if rep:
                         fac.perturb(5)
                     sc = HySC(n_realizations=3) if case["sut_seed"] is None else HySC(seed=case["sut_seed"], n_realizations=3)
+                    if rep and case.get("decoy"):
+                        sc.fit(_gen.build_hypergraph(case["decoy"]["spec"]), K=case["decoy"]["K"])  # the object has a past
                     x = np.array(sc.fit(hh, K=K))
             except Exception as e:  # noqa
                 raise Violation("C17/hysc/raised", {"exception": repr(e), **ctx})
@@ -344,6 +363,10 @@ def simplify(case):
     if case.get("q", 0) > 0:
         c2 = dict(c)
         c2["q"] = 0.0
+        yield c2
+    if case.get("decoy"):
+        c2 = dict(c)
+        c2["decoy"] = None
         yield c2
     for fld, lo in (("max_iter", 1), ("n_real", 1)):
         if case[fld] > lo:
